@@ -455,4 +455,29 @@ def _region_private_field_data(case):
     return False
 
 
-CLASSIFIERS = {"omp_region_private_field_data": _region_private_field_data}
+def _reprod_reduction_read_in_region(case):
+    """Reproducible (reprod) OpenMP reduction whose result is read as a
+    scalar argument by a later built-in of the SAME parallel region (no
+    distributed memory, so no global sum splits the region): the partial
+    sums are only added up after '!$omp end parallel', the later loop sees
+    the zeroed variable."""
+    inv = case["invoke"]
+    plan = inv.get("trans", {})
+    if (plan.get("kind") != "region" or not plan.get("merge")
+            or not plan.get("reprod") or case["dm"]):
+        return False
+    pending = set()
+    for call in inv["builtins"]:
+        sp = spec.SPEC[call["name"]]
+        for idx, (tok, (_, typ, _)) in enumerate(zip(call["args"], sp.args)):
+            if typ in ("rs", "is") and idx != sp.windex and tok in pending:
+                return True
+        if sp.kind == "reduction":
+            pending.add(call["args"][sp.windex])
+    return False
+
+
+CLASSIFIERS = {
+    "omp_region_private_field_data": _region_private_field_data,
+    "reprod_reduction_read_in_region": _reprod_reduction_read_in_region,
+}
